@@ -21,6 +21,7 @@ mod types;
 mod diag;
 mod project;
 mod repeat;
+mod gen;
 
 use sexp::{hex, unhex};
 
@@ -109,6 +110,7 @@ fn dispatch(endpoint: &str, fields: &[&str]) -> String {
         "render" => diag::dispatch(fields),
         "project" => project::dispatch(fields),
         "repeat" => repeat::dispatch(fields),
+        "gen" => gen::dispatch(fields),
         "ping" => "OK".into(),
         other => format!("BAD\tunknown endpoint {other}"),
     }
